@@ -220,7 +220,11 @@ func solveAllInner(obls []*Obligation, outDir string, timeout time.Duration, tho
 			defer func() { <-sem }()
 			o := obls[i]
 			if o.scanFail {
-				res[i] = &Result{O: o, File: files[i], Status: "scan-failed", Solver: "ssa-scan", Output: o.Note}
+				st := "scan-failed"
+				if o.Kind == "binding" {
+					st = "contract-does-not-apply"
+				}
+				res[i] = &Result{O: o, File: files[i], Status: st, Solver: "ssa-scan", Output: o.Note}
 				return
 			}
 			if len(cases[i]) > 1 {
